@@ -20,10 +20,10 @@ pub fn run(cfg: &Cfg) -> i32 {
         cfg,
         "exploration",
         "case = (program with side-effect-free functions, host-call history, position, call): evaluate_function is injected twice after the position. Monitored: both calls return the same value and text (purity), pending text/tags/choices are unchanged, all globals and all visit counts except the function's own are unchanged, the canonical save is unchanged except for the function's counts, every later record and the final state equal the uninjected control. Refused calls (unknown/blank name, divert-target argument read through get_variable) must return Err and change nothing at all. Non-trivial = all; distinct by (program, history prefix, call).",
-        cfg.pick(6000, 100000),
+        cfg.pick(6000, 800000),
     );
     rep.assumptions.push("the generator's functions have no global side effects: text, parameters, reads of globals/read counts, return value; no assignments, sequences or RANDOM".into());
-    let nprog = cfg.get_u64("programs", cfg.pick(250, 4000));
+    let nprog = cfg.get_u64("programs", cfg.pick(250, 30000));
     let mut gc = GenCfg::rich();
     gc.random = false;
     gc.pure_functions = true;
